@@ -1,6 +1,6 @@
 /*VERIF
 { "tu": "src/semaphore.c", "enforce": "_dispatch_group_wake", "props": ["C07","C17"], "seq": true, "plain": true, "timeout": 240,
-  "bounded": {"unwind": 5, "what": "notify list of <= 3 continuations (list walk by pointer chasing has no loop contract)"},
+  "bounded": {"unwind": 5, "what": "notify list of <= 3 continuations (list walk by pointer chasing has no loop contract), at most one of them not yet linked to its successor by a concurrent notifier"},
   "log_cap": 20,
   "stub_note": "_dispatch_continuation_async: logged submission; _dispatch_wake_by_address: logged; release: logged" }
 VERIF*/
@@ -13,7 +13,10 @@ unsigned H_len;
 static inline void _dispatch_continuation_async(dispatch_queue_class_t dqu, dispatch_continuation_t dc, dispatch_qos_t qos, uintptr_t dc_flags)
 { (void)qos; (void)dc_flags; __verif_event(EV_PUSH, 0, dqu._dq, (uintptr_t)dc, 0); }
 void _dispatch_wake_by_address(uint32_t volatile *address) { __verif_event(EV_KWAKE, 0, address, 0, 0); }
-void *_dispatch_wait_for_enqueuer(void **ptr) { (void)ptr; __CPROVER_assert(0, "VA:snapshot_is_complete_no_wait_for_enqueuer"); return 0; }
+/* a notifier that has swapped itself in as the tail but not yet linked itself behind its predecessor (do_next still NULL): the walk must WAIT for the link, not
+ * stop - the node is part of the captured snapshot (its tail says so) */
+unsigned H_gap_at; unsigned H_waits;
+void *_dispatch_wait_for_enqueuer(void **ptr) { VERIF_ASSERT(waits_only_for_a_link_that_is_really_missing, H_gap_at < 2 && H_gap_at + 1 < H_len && ptr == (void **)&H_n[H_gap_at].do_next); H_waits++; H_n[H_gap_at].do_next = &H_n[H_gap_at + 1]; return &H_n[H_gap_at + 1]; }
 #define HAS_N(s) (((s) & DISPATCH_GROUP_HAS_NOTIFS) != 0)
 #define HAS_W(s) (((s) & DISPATCH_GROUP_HAS_WAITERS) != 0)
 VERIF_CONTRACT_VOID(_dispatch_group_wake, (dispatch_group_t dg, uint64_t dg_state, bool needs_release),
@@ -37,7 +40,8 @@ void harness(void)
 {
 	VERIF_GHOST_RESET();
 	H_len = ND(unsigned); __CPROVER_assume(H_len >= 1 && H_len <= 3);
-	for (unsigned i = 0; i < 3; i++) { H_n[i].dc_data = &H_q[i]; H_n[i].do_next = (i + 1 < H_len) ? &H_n[i + 1] : 0; }
+	H_gap_at = ND(unsigned); H_waits = 0; __CPROVER_assume(H_gap_at <= 3);   /* 3 = no gap */
+	for (unsigned i = 0; i < 3; i++) { H_n[i].dc_data = &H_q[i]; H_n[i].do_next = (i + 1 < H_len && i != H_gap_at) ? &H_n[i + 1] : 0; }
 	H_group.dg_notify_head = &H_n[0]; H_group.dg_notify_tail = &H_n[H_len - 1];
 	uint64_t st = ND(uint64_t); bool nr = ND_BOOL();
 	VERIF_PRE_CALL(_dispatch_group_wake, DG, st, nr);
